@@ -17,7 +17,7 @@ superchip char sc; superchip short ss; superchip char sa[4]; superchip short ssa
 ramchip char rc; ramchip short rs; ramchip char ra[4]; ramchip char *rp; ramchip short rsa[4];
 bank1 char bc; bank1 short bs; bank1 char ba[4];
 const char ct[4] = {1, 2, 3, 4}; const short cst[2] = {1, 2}; const signed char csc[2] = {1, 2};
-char *const HW = 0x10; char *const HWB = 0x280;
+char *const HW = 0x10; char *const HWB = 0x280; char *const HWE = 0xfe; char *const HWF = 0xff; char *const HWG = 0x100; char *const HWH = 0x101; char *const HW0 = 0;
 const char k8 = 7;
 void main() { zc = 1; }
 '''
@@ -42,6 +42,29 @@ def memclass(m):
     if m in ('Zeropage', 'Superchip'):
         return m
     return 'Other'
+
+
+def const_addr(v):
+    """the address of a constant-address object (a const pointer defined by an integer), '-' otherwise:
+    v_addr of Model/AsmSel.v"""
+    d = v.get('def')
+    if v['type'] == 'CharPtr' and v['const'] and d is not None and d[0] == 'value' and isinstance(d[1], int):
+        return str(d[1])
+    return '-'
+
+
+def var_wf_problems(vars_):
+    """var_wf of Model/AsmSel.v on the variables the real compiler produced: a constant address is
+    classified Zeropage exactly when it lies in page zero"""
+    bad = []
+    for v in vars_:
+        a = const_addr(v)
+        if a != '-':
+            a = int(a)
+            if a < 0 or (v['memory'] == 'Zeropage') != (a < 256):
+                bad.append({'variable': v['name'], 'address': a, 'memory': v['memory'],
+                            'why': 'a constant address %s page zero is classified %s' % ('in' if a < 256 else 'outside', v['memory'])})
+    return bad
 
 
 def build_probes(vars_, schemes=('4K', '3E', '3EP'), prot_values=(0, 1)):
@@ -94,9 +117,9 @@ def run_domain(schemes=('4K', '3E', '3EP')):
         mtext = []
         for k, (mn, kind, name, v, eb, n, high, s, prot) in enumerate(probes):
             if v is None:
-                rec = ['Char', '0', '0', 'Zeropage', '1']
+                rec = ['Char', '0', '0', 'Zeropage', '1', '-']
             else:
-                rec = [v['type'], '1' if v['const'] else '0', '1' if v['signed'] else '0', memclass(v['memory']), str(v['size'])]
+                rec = [v['type'], '1' if v['const'] else '0', '1' if v['signed'] else '0', memclass(v['memory']), str(v['size']), const_addr(v)]
             mtext.append('probe %d %s %s %s %s %s %d %d %d %s %d' % (k, mn, kind, hx(name), ' '.join(rec[:1]), ' '.join(rec[1:]), eb, n, high, s, prot))
         model = run_sel('\n'.join(mtext) + '\n')
         for k, (p, ri) in enumerate(zip(probes, impl['probes'])):
